@@ -175,6 +175,7 @@ type c04LoopOut struct {
 	OK          bool       `json:"ok"`
 	Err         string     `json:"err"`
 	Batches     [][]string `json:"batches"`
+	Invalid     bool       `json:"invalid,omitempty"`
 	Answered    []string   `json:"answered"`
 	Blind       []string   `json:"blind"`
 	Total       int        `json:"total"`
@@ -235,10 +236,20 @@ func c04LoopSuite(cases []string) (string, []string, []string) {
 }
 
 func c04RunLoop(c *gen.Ctx, in c04LoopIn) c04LoopOut {
+	// inputs mutated by the shrinker / the neighbourhood search may be malformed: not a scenario
+	valid := in.Layout >= 1 && in.Layout <= 3 && in.MaxServers >= 1 && len(in.Cases) > 0
 	switch in.Stop {
 	case "serve", "serve3", "exit0", "exit3", "closeout", "blind0":
 	default:
-		panic("c04: bad stop " + in.Stop)
+		valid = false
+	}
+	for _, code := range in.Cases {
+		if len(code) != 2 || (code[0] != 'r' && code[0] != 'w') || (code[1] != 'u' && code[1] != 'f' && code[1] != 'k') {
+			valid = false
+		}
+	}
+	if !valid {
+		return c04LoopOut{Invalid: true}
 	}
 	suite, failing, flaky := c04LoopSuite(in.Cases)
 	cfg := c04LoopCfg(in.Layout)
